@@ -96,18 +96,27 @@ def run(rep):
               for l, b, c in zip(plines, pp, je) if b != c and b in ('true', 'false')]
 
     # oracle: brute-force instantiation on the real implementations
-    P = pool(rng)
+    P0 = pool(rng)
+    P = P0
     wit = []
     checked = 0
     cand = [(k, x, p) for (k, x, p), a in zip(meta, ra) if a == 'true' and mvs_of(p)]
     rng.shuffle(cand)
     cand = cand[:600 if quick else 8000]
+    # judgements on which the checker says 'true' and the (sound) model says 'false' are searched much harder,
+    # with every small concrete pattern as a plug: this is where a violating instance must be if there is one
+    suspects = [(k, x, p) for (k, x, p), a, b in zip(meta, ra, la) if a == 'true' and b == 'false' and mvs_of(p)]
+    suspects.sort(key=lambda t: sx.size(t[2]))
+    suspects = suspects[:40 if quick else 400]
+    small = [q for n in (1, 2, 3) for q in gen.all_small_pats(n, meta=False)]
     ilines, imeta = [], []
-    for k, x, p in cand:
+    for k, x, p in suspects + cand:
         ms = {}
         for m in mvs_of(p):
             ms.setdefault(m[1], []).append(m)
-        for _ in range(3):
+        hard = (k, x, p) in suspects[:40 if quick else 400] and len(imeta) < 60000
+        for _ in range(60 if hard else 3):
+            P = small if hard else P0
             ids, plugs = [], []
             okc = True
             for mid, recs in ms.items():
